@@ -2,10 +2,10 @@
 """BOUNDED stand-in (not a proof) for C12: every single structural fault of the kinds
 
     delete an element | duplicate an element | empty a text node | delete an attribute | empty an attribute | set an attribute to a foreign
-    (non-ASCII) text | retarget an href to a missing id, to its own element, or make its target require it back (cyclic requirements)
+    (non-ASCII) text | empty an element of its children | swap an element with the sibling that follows it | retarget an href to a missing id, to its own element, or make its target require it back (cyclic requirements)
 
 applied at every position of the example models shipped with the repository (examples/src/**/*.dmn), plus the unmodified models, plus
-28 generated models with requirement cycles of length 1..3 through every kind of edge (decision, knowledge model, the output /
+28 generated models (and their variants with references written as `namespace#id`) with requirement cycles of length 1..3 through every kind of edge (decision, knowledge model, the output /
 encapsulated / input decisions of a decision service) and with type reference cycles (exact and with white space around the names):
 parse + build the evaluator + evaluate every invocable with an empty context and with four contexts binding every input data on the
 real code (replay driver, catch_unwind).
@@ -61,6 +61,22 @@ def faults(xml):
         inner = xml[o.end():e]
         if o.group(4) != '/' and '<' not in inner and inner.strip():
             res.append(('empty text of <%s> at %d' % (o.group(2), s), xml[:o.end()] + xml[e - len('</%s>' % o.group(2)):]))
+        if o.group(4) != '/' and '<' in inner:
+            # an element emptied of its children (`empty an element` of the property's quantifier): <tag attributes></tag>
+            close = xml.rfind('</', s, e)
+            res.append(('empty <%s> at %d of its children' % (o.group(2), s), xml[:o.end()] + xml[close:]))
+    # swap an element with the sibling that follows it
+    by_start = sorted(els, key=lambda x: (x[0], -x[1]))
+    for idx, (s, e, o) in enumerate(by_start):
+        if s == root_start:
+            continue
+        nxt = None
+        for (s2, e2, o2) in by_start[idx + 1:]:
+            if s2 >= e:
+                nxt = (s2, e2, o2)
+                break
+        if nxt and xml[e:nxt[0]].strip() == '':
+            res.append(('swap <%s> at %d with the <%s> that follows it' % (o.group(2), s, nxt[2].group(2)), xml[:s] + xml[nxt[0]:nxt[1]] + xml[e:nxt[0]] + xml[s:e] + xml[nxt[1]:]))
     # cyclic item definitions: the typeRef of an item definition (or of one of its components) names the definition itself
     for (s, e, o) in els:
         if o.group(2).split(':')[-1] == 'typeRef' and o.group(4) != '/':
@@ -183,7 +199,20 @@ def generated_models():
     m.append(('a decision and a knowledge model with one identifier, the knowledge model requires it', decision('X', req_know=['X'], text='1') + bkm('X', ['X'])))
     m.append(('two item definitions with one name, the first refers to itself', itemdef('tA', 'tA') + itemdef('tA', 'number') + indata('I', 'tA') + decision('A', req_in=['I'], text='I')))
     m.append(('two item definitions with one name, the second refers to itself', itemdef('tA', 'number') + itemdef('tA', 'tA') + indata('I', 'tA') + decision('A', req_in=['I'], text='I')))
-    return [(what, head + body + tail) for (what, body) in m]
+    out = [(what, head + body + tail) for (what, body) in m]
+    # the same cycles with references spelled with the model's own namespace in front (`namespace#id`): whatever the builders make of such a
+    # reference (dangling, or the local element), the cycle check must make the same of it - every reference, only the first, only the last
+    for (what, text) in list(out):
+        if 'href="#_' not in text:
+            continue
+        q = 'href="https://verif/cyc#_'
+        first = text.replace('href="#_', q, 1)
+        i = text.rfind('href="#_')
+        last = text[:i] + q + text[i + len('href="#_'):]
+        for (how, t) in (('every reference', text.replace('href="#_', q)), ('the first reference', first), ('the last reference', last)):
+            if t != text and all(t != x[1] for x in out):
+                out.append((what + ' - %s written with the namespace of the model' % how, t))
+    return out
 
 
 def main():
